@@ -24,7 +24,7 @@ ASSUMPTIONS = [
 OUT_OF_BOUNDS = ['exceptions raised by Fiddle\'s own machinery (binding errors: C01)', 'signals, MemoryError',
                  'more than 3 nodes']
 
-FAIL = {'node': None, 'exc': 0}
+FAIL = {'node': None, 'exc': 0, 'round': 0, 'remembered': None}
 
 
 class CustomInit(Exception):
@@ -59,8 +59,17 @@ class Multi(KeyError, AttributeError):
   pass
 
 
+def _twin():
+  class Twin(Exception):
+    """Every call creates a new class with the same module and qualified name."""
+  return Twin
+
+
+TWINS = [_twin(), _twin()]
+
 EXC_NAMES = ['ValueError', 'KeyError', 'CustomInit', 'StrOverride', 'Slotted', 'NoSubclass', 'BaseOnly', 'empty',
-             'Multi']
+             'Multi', 'twin classes (same qualified name, one per round)',
+             'an exception that escaped the previous build, raised again by a different node']
 
 
 def make_exc(shape):
@@ -80,6 +89,10 @@ def make_exc(shape):
     return BaseOnly('base only')
   if shape == 7:
     return RuntimeError()
+  if shape == 9:
+    return TWINS[FAIL.get('round', 0) % 2]('twin')
+  if shape == 10:
+    return FAIL['remembered'] if FAIL.get('remembered') is not None else ValueError('first failure')
   return Multi('multi')
 
 
@@ -186,8 +199,15 @@ def _run(w, exc, fmt, again, fail, t1x, t1y, t2x, t2y):
   healthy_copy = copy.deepcopy(root)
   res = dict(instance=True, startswith=True, path=True, last=True, unmodified=True, nextbuild=True, raised=True)
   rounds = 2 if again == 1 else 1
-  for _ in range(rounds):
-    FAIL['node'], FAIL['exc'] = f, exc
+  FAIL['remembered'] = None
+  for rnd in range(rounds):
+    if exc == 10 and rnd == 1:
+      # the exception that escaped round one is raised again, by another node: its old context names another path
+      others = [i for i in sorted(reach) if i != f]
+      if not others or fmt in (2, 4):
+        break
+      f = others[0]
+    FAIL['node'], FAIL['exc'], FAIL['round'] = f, exc, rnd
     sigs.reset_log()
     original = make_exc(exc) if fmt != 2 else TypeError('')
     escaped = None
@@ -204,18 +224,22 @@ def _run(w, exc, fmt, again, fail, t1x, t1y, t2x, t2y):
     if escaped is None:
       res['raised'] = False
       return res
+    if exc == 10 and fmt != 2:
+      FAIL['remembered'] = escaped
     if not isinstance(escaped, type(original)):
       res['instance'] = False
     text = str(escaped)
     if not text.startswith(str(original)):
       res['startswith'] = False
-    m = _PATH_RE.search(text)
+    named_all = _PATH_RE.findall(text)
     if fmt == 3:
       pass          # no string names this path (repr of a key on it raises): the clause has no subject
-    elif not m:
+    elif not named_all:
       res['path'] = False
     else:
-      named = m.group(1)
+      # the context added by *this* build is the last one (an exception raised again carries older contexts in its
+      # original message): it has to lead to the Buildable that failed now
+      named = named_all[-1]
       hits = [obj for p, obj in reach_paths(root) if p == named]
       if not hits or hits[0] is not nodes[f]:
         res['path'] = False
@@ -252,7 +276,7 @@ def c05_residue(w: int, exc: int, fmt: int, again: int, fail: int, t1x: int, t1y
   Everything except the "names a path" clause: raised, instance of the original class, message starts
   with the original message, nothing invoked after the failing callable, configuration unmodified,
   next build works.
-  require: 0 <= w <= 5 and 0 <= exc <= 8 and 0 <= fmt <= 4 and 0 <= again <= 1 and 0 <= fail <= 2
+  require: 0 <= w <= 5 and 0 <= exc <= 10 and 0 <= fmt <= 4 and 0 <= again <= 1 and 0 <= fail <= 2
   require: -1 <= t1x <= 0 and -1 <= t1y <= 0 and -1 <= t2x <= 1 and -1 <= t2y <= 1
   """
   res = _run(w, exc, fmt, again, fail, t1x, t1y, t2x, t2y)
@@ -264,7 +288,7 @@ def c05_residue(w: int, exc: int, fmt: int, again: int, fail: int, t1x: int, t1y
 def c05_path(w: int, exc: int, fmt: int, again: int, fail: int, t1x: int, t1y: int, t2x: int, t2y: int) -> bool:
   """
   The escaping exception's message names a path from the root that really leads to the failing Buildable.
-  require: 0 <= w <= 5 and 0 <= exc <= 8 and 0 <= fmt <= 4 and 0 <= again <= 1 and 0 <= fail <= 2
+  require: 0 <= w <= 5 and 0 <= exc <= 10 and 0 <= fmt <= 4 and 0 <= again <= 1 and 0 <= fail <= 2
   require: -1 <= t1x <= 0 and -1 <= t1y <= 0 and -1 <= t2x <= 1 and -1 <= t2y <= 1
   """
   res = _run(w, exc, fmt, again, fail, t1x, t1y, t2x, t2y)
@@ -384,7 +408,7 @@ def c05_nested_seq(a0: int, a1: int, a2: int, w: int, t1x: int, t1y: int, t2x: i
 def obligations(tier, seed):
   ws = [0, 1, 3] if tier == 'quick' else [0, 1, 2, 3, 4, 5]
   cubes = []
-  for exc in range(9):
+  for exc in range(11):
     for fmt in range(5):
       for again in range(2):
         for w in ws:
@@ -395,9 +419,9 @@ def obligations(tier, seed):
   t = 300 if tier == 'quick' else 900
   return [
       Obligation('c05_residue', c05_residue, cubes, timeout=t, path_timeout=40, smoke=smoke,
-                 extra_smokes=[dict(smoke, exc=e, fmt=e % 5, fail=e % 3) for e in range(9)]),
+                 extra_smokes=[dict(smoke, exc=e, fmt=e % 5, fail=e % 3) for e in range(9)] + [dict(smoke, exc=9), dict(smoke, exc=10, fail=1)]),
       Obligation('c05_path', c05_path, cubes, timeout=t, path_timeout=40, smoke=smoke,
-                 extra_smokes=[dict(smoke, exc=e, fail=1) for e in (1, 2, 3, 4, 7, 8)]),
+                 extra_smokes=[dict(smoke, exc=e, fail=1) for e in (1, 2, 3, 4, 7, 8, 9, 10)]),
       Obligation('c05_nested_seq', c05_nested_seq,
                  [Cube(f'a{a0}{a2}_w{w}', [], dict(a0=a0, a2=a2, w=w), est=108) for a0 in range(3) for a2 in range(3)
                   for w in ((1,) if tier == 'quick' else (0, 1, 3, 5))], timeout=t, path_timeout=40,
